@@ -597,6 +597,17 @@ func (vc *VC) havocAll(st *State) {
 			}
 		}
 	}
+	// bookkeeping ghosts of the activation itself survive even if they were only registered so far
+	for _, k := range []string{"#waited", "#held", "#fnid"} {
+		if _, ok := keep[k]; !ok && vc.heapElem[k] != nil {
+			keep[k] = vc.heapGet(st, k, vc.heapElem[k])
+		}
+	}
+	for k, elem := range vc.heapElem {
+		if _, ok := keep[k]; !ok && strings.HasPrefix(k, "#fifo.") {
+			keep[k] = vc.heapGet(st, k, elem)
+		}
+	}
 	// fields written only while their object is constructed: a callee can only initialise objects it
 	// allocates itself (locations that did not exist before), so the heap of such a field is unchanged
 	// on every location that exists now
